@@ -14,7 +14,8 @@ def write_crate(name, lib_rs):
         f.write(f"[package]\nname = \"kani_{name.lower()}\"\nversion = \"0.0.0\"\nedition = \"2021\"\n\n[dependencies]\n\n[workspace]\n\n"
                 "[lints.rust]\nunexpected_cfgs = { level = \"allow\" }\n")
     with open(os.path.join(d, "src", "lib.rs"), "w") as f:
-        f.write(lib_rs)
+        # the extractor's structural markers have no meaning outside the Verus assembler
+        f.write("#[allow(unused_macros)] macro_rules! __vx_loop { ($k:expr) => {}; }\n#[allow(unused_macros)] macro_rules! __vx_at { ($k:expr) => {}; }\n" + lib_rs)
     return d
 
 
